@@ -208,10 +208,15 @@ package message
 //@ type Router
 //@   self r
 //@   monitor handlersLock guards handlers
-//@   monitor closedLock guards closed
+//@   monitor closedLock guards closed, closingInProgressCh(close), closedCh(close), #closeCompleted
+//@   ghostfield closeCompleted bool
+//@   wgadds handlersWg under handlersLock
+//@   object-invariant r.closingInProgressCh != nil && r.closedCh != nil && r.running != nil && r.closingInProgressCh != r.closedCh && r.closingInProgressCh != r.running && r.closedCh != r.running [its-three-signalling-channels-exist-and-are-distinct]
 //@   ownschan running, closingInProgressCh, closedCh
+//@   rely old(r.closed) ==> r.closed [closed-is-final]
+//@   invariant r.closed == closed(r.closingInProgressCh) && r.closed == closed(r.closedCh) [mon:closedLock:closed-flag-tells-both-close-channels]
 //@   invariant r.handlers != nil [mon:handlersLock:handlers-map-exists]
-//@   invariant forall k string :: has(r.handlers, k) ==> r.handlers[k] != nil && r.handlers[k].name == k && r.handlers[k].startedCh != nil && (!r.handlers[k].started ==> !closed(r.handlers[k].startedCh)) [mon:handlersLock:registered-handlers-are-well-formed]
+//@   invariant forall k string :: has(r.handlers, k) ==> r.handlers[k] != nil && r.handlers[k].name == k && r.handlers[k].startedCh != nil && (!r.handlers[k].started ==> !closed(r.handlers[k].startedCh)) && r.handlers[k].startedCh != r.closingInProgressCh && r.handlers[k].startedCh != r.closedCh [mon:handlersLock:registered-handlers-are-well-formed]
 
 //@   invariant forall k1 string, k2 string :: has(r.handlers, k1) && has(r.handlers, k2) && k1 != k2 ==> r.handlers[k1] != r.handlers[k2] && r.handlers[k1].startedCh != r.handlers[k2].startedCh [mon:handlersLock:handlers-and-their-started-channels-are-distinct]
 
@@ -499,3 +504,43 @@ package message
 //@   assert @close:r.running: ncalls(RH) == old(ncalls(RH)) + 1 && sret(RH, 0, ncalls(RH) - 1) == nil [running-is-closed-only-after-RunHandlers-subscribed-every-registered-handler]
 //@   inv loop 1: r.isRunning && !closed(r.running) && ncalls(RH) == old(ncalls(RH)) [plugins-run-before-anything-starts]
 //@   modifies r.isRunning, closed(r.running), field(handler.publisher), field(handler.subscriber), field(handler.messagesCh), field(handler.started), field(handler.stopFn), field(handler.stopped)
+
+// ---- graceful close (C06) ----
+
+//@ func (*Router).Close
+//@   ghost label RCLOSE
+//@   ghost atomic
+//@   ghost set closeCompleted(r) = !timedout @close:r.closedCh
+//@   requires r != nil && routerBuilt(r) && r.logger != nil
+//@   nopanic
+//@   ensures r.closed && closed(r.closingInProgressCh) && closed(r.closedCh) [closed-and-both-close-channels-closed]
+//@   ensures old(r.closed) ==> ncalls(WFH) == old(ncalls(WFH)) [a-repeated-close-does-nothing]
+//@   ensures !old(r.closed) ==> ncalls(WFH) == old(ncalls(WFH)) + 1 && (result == nil) == (sret(WFH, 0, old(ncalls(WFH))) == false) [nil-exactly-when-the-wait-for-the-handlers-did-not-time-out]
+//@   ensures result == nil ==> gf(closeCompleted, r) [nil-only-when-a-close-has-waited-for-the-handlers-without-timing-out]
+//@   modifies r.closed, closed(r.closingInProgressCh), closed(r.closedCh)
+
+//@ func (*Router).waitForHandlers
+//@   ghost label WFH
+//@   ghost holds r.handlersLock
+//@   requires r != nil && r.handlersWg != nil && r.runningHandlersWg != nil && r.runningHandlersWgLock != nil
+//@   nopanic
+//@   ensures spawned("(*Router).waitForHandlers$1") == old(spawned("(*Router).waitForHandlers$1")) + 1 [one-waiter]
+//@   modifies nothing
+
+//@ func (*Router).waitForHandlers$1
+//@   ghost consumes-wg waitGroup
+//@   ghost borrows r.handlersLock
+//@   requires r != nil && r.handlersWg != nil && r.runningHandlersWg != nil && r.runningHandlersWgLock != nil
+//@   nopanic
+//@   assert @wgwait:r.runningHandlersWg: wg(r.handlersWg) == 0 [the-wait-for-invocations-starts-only-after-every-receive-loop-has-ended]
+//@   assert @wgdone:waitGroup: wg(r.handlersWg) == 0 && wg(r.runningHandlersWg) == 0 [reports-back-only-with-no-receive-loop-alive-and-no-invocation-in-progress]
+//@   ensures wgtoken(waitGroup) == 0 [reports-back-exactly-once]
+
+//@ func (*handler).handleClose
+//@   requires h != nil && ctx != nil && h.subscriber != nil && h.stopFn != nil && h.routersCloseCh != nil
+//@   callee SC = h.subscriber.Close
+//@   callee STOP = h.stopFn
+//@   maypanic
+//@   ensures calls(STOP) == old(calls(STOP)) + 1 [the-handler-is-stopped-once]
+//@   ensures calls(SC) <= old(calls(SC)) + 1 [the-subscriber-is-closed-at-most-once-here]
+//@   ensures old(closed(h.routersCloseCh)) ==> calls(SC) == old(calls(SC)) + 1 [a-closing-router-gets-this-handlers-subscriber-closed]
